@@ -1961,6 +1961,7 @@ type subscriptionUpdater struct {
 func (s *subscriptionUpdater) Update(data []byte) {
 	s.mu.Lock()
 	defer s.mu.Unlock()
+	defer verifPoint("upd.leave", s.triggerID, 0)
 	if s.done || s.ctx.Err() != nil {
 		return
 	}
@@ -1973,6 +1974,7 @@ func (s *subscriptionUpdater) Update(data []byte) {
 func (s *subscriptionUpdater) Heartbeat() {
 	s.mu.Lock()
 	defer s.mu.Unlock()
+	defer verifPoint("upd.leave", s.triggerID, 0)
 	if s.done || s.ctx.Err() != nil {
 		return
 	}
@@ -1982,6 +1984,7 @@ func (s *subscriptionUpdater) Heartbeat() {
 func (s *subscriptionUpdater) UpdateSubscription(id SubscriptionIdentifier, data []byte) {
 	s.mu.Lock()
 	defer s.mu.Unlock()
+	defer verifPoint("upd.leave", s.triggerID, 0)
 	if s.done || s.ctx.Err() != nil {
 		return
 	}
@@ -1998,6 +2001,7 @@ func (s *subscriptionUpdater) Subscriptions() map[context.Context]SubscriptionId
 func (s *subscriptionUpdater) Complete() {
 	s.mu.Lock()
 	defer s.mu.Unlock()
+	defer verifPoint("upd.leave", s.triggerID, 0)
 	if s.done || s.ctx.Err() != nil {
 		if s.debug {
 			fmt.Printf("resolver:subscription_updater:complete:skip:%d\n", s.triggerID)
@@ -2013,6 +2017,7 @@ func (s *subscriptionUpdater) Complete() {
 func (s *subscriptionUpdater) Error(data []byte) {
 	s.mu.Lock()
 	defer s.mu.Unlock()
+	defer verifPoint("upd.leave", s.triggerID, 0)
 	if s.done || s.ctx.Err() != nil {
 		if s.debug {
 			fmt.Printf("resolver:subscription_updater:error:skip:%d\n", s.triggerID)
@@ -2028,6 +2033,7 @@ func (s *subscriptionUpdater) Error(data []byte) {
 func (s *subscriptionUpdater) Done() {
 	s.mu.Lock()
 	defer s.mu.Unlock()
+	defer verifPoint("upd.leave", s.triggerID, 0)
 	if s.done {
 		return
 	}
@@ -2041,6 +2047,7 @@ func (s *subscriptionUpdater) Done() {
 func (s *subscriptionUpdater) CloseSubscription(id SubscriptionIdentifier) {
 	s.mu.Lock()
 	defer s.mu.Unlock()
+	defer verifPoint("upd.leave", s.triggerID, 0)
 	if s.done || s.ctx.Err() != nil {
 		if s.debug {
 			fmt.Printf("resolver:subscription_updater:close:skip:%d\n", s.triggerID)
